@@ -95,6 +95,7 @@ func (fr *Frame) oblName(label string) string {
 // safety emits a safety obligation (nopanic) or assumes the condition (execution continued normally).
 func (fr *Frame) safety(label, cond, goal string, p token.Pos, desc string) {
 	if fr.top().lockOnly {
+		fr.vc.fact(cond, goal) // execution continued, so the instruction did not panic
 		return
 	}
 	if fr.top().nopanic {
@@ -168,7 +169,7 @@ func (fr *Frame) analyzeCFG() []*ssa.BasicBlock {
 	sort.Slice(headers, func(i, j int) bool { return headers[i].Index < headers[j].Index })
 	for i, h := range headers {
 		fr.loops[h].ordinal = i + 1
-		if fr.fc != nil {
+		if fr.fc != nil && !fr.top().lockOnly {
 			fr.loops[h].spec = fr.fc.Loops[i+1]
 		}
 	}
@@ -1191,10 +1192,17 @@ func (fr *Frame) typeAssert(st *State, x *ssa.TypeAssert) {
 		// to-interface assertion: succeeds iff dynamic type implements it
 		pn := "impl_" + sanitize(shortTypeKey(at))
 		vc.ufun(pn, []string{"Int"}, "Bool")
-		// facts for known type ids
-		for k, id := range vc.typeIDs {
-			_ = k
-			_ = id
+		// facts for the dynamic-type ids known so far: whether that type implements the asserted interface
+		if ifc, isI := at.Underlying().(*types.Interface); isI {
+			for k, id := range vc.typeIDs {
+				if dt := vc.typeOfKey[k]; dt != nil {
+					if types.Implements(dt, ifc) {
+						vc.axiomOnce(fmt.Sprintf("(%s %d)", pn, id))
+					} else {
+						vc.axiomOnce(fmt.Sprintf("(not (%s %d))", pn, id))
+					}
+				}
+			}
 		}
 		if e, isEmpty := at.Underlying().(*types.Interface); isEmpty && e.NumMethods() == 0 {
 			ok = "(not (= " + v.C[0] + " 0))"
@@ -1360,7 +1368,9 @@ func (fr *Frame) guardedAccess(st *State, S types.Type, fname, ref string, pos t
 			"(=> (= "+ref+" "+top.recvRef+") "+fr.vc.heldTerm(st, top.lockAddr)+")", fr.pos(pos), "access to guarded field "+key+" requires the lock")
 		return
 	}
-	fr.vc.oblige("lock", top.oblFn, fr.oblName("guarded:"+structKey(S)+"."+fname), fr.curCond, fr.vc.heldTerm(st, top.lockAddr), fr.pos(pos), "access to guarded field "+key+" requires the lock")
+	// objects allocated during this call are not yet shared: their initialisation needs no lock
+	fresh := "(> " + ref + " " + fr.vc.top(top.old) + ")"
+	fr.vc.oblige("lock", top.oblFn, fr.oblName("guarded:"+structKey(S)+"."+fname), fr.curCond, "(or "+fresh+" "+fr.vc.heldTerm(st, top.lockAddr)+")", fr.pos(pos), "access to guarded field "+key+" requires the lock")
 }
 
 func (fr *Frame) runDefers(st *State) {
